@@ -887,6 +887,20 @@ func (p *Prog) callersOf(target *ssa.Function) map[*ssa.Function][]*ssa.Call {
 	return out
 }
 
+// rawCallersOf: the functions (known or new) that contain a static call of target, with
+// the call instructions themselves.
+func (p *Prog) rawCallersOf(target *ssa.Function) map[*ssa.Function][]*ssa.Call {
+	out := map[*ssa.Function][]*ssa.Call{}
+	for _, fn := range p.Funcs {
+		for _, ce := range p.effects(fn).calls {
+			if ce.Callee == target && ce.In != nil {
+				out[fn] = append(out[fn], ce.In)
+			}
+		}
+	}
+	return out
+}
+
 type liftedCall struct {
 	callee *ssa.Function
 	anchor *ssa.Call
